@@ -53,6 +53,33 @@ def boh_configs(ctx):
     return q
 
 
+def nbest_histories(ctx, n):
+    """seeded histories beyond the TLC bounds: 3-5 variants of one base string of length 3-5 over {a,b,c} (0-2 edits each: insertions
+    at the start / middle / end, deletions, substitutions), scores 1-3 - the shape of an n-best list"""
+    out = []
+    for _ in range(n):
+        k = ctx.rng.choice([2, 3])
+        base = [ctx.rng.randint(1, k) for _ in range(ctx.rng.randint(3, 5))]
+        hyps = []
+        for _ in range(ctx.rng.randint(3, 5)):
+            h = list(base)
+            for _ in range(ctx.rng.choice([0, 1, 1, 2])):
+                op = ctx.rng.choice(["ins", "ins", "del", "sub"])
+                if op == "ins":
+                    pos = ctx.rng.choice([0, len(h), ctx.rng.randint(0, len(h))])
+                    h.insert(pos, ctx.rng.randint(1, k))
+                elif h:
+                    pos = ctx.rng.randrange(len(h))
+                    if op == "del":
+                        del h[pos]
+                    else:
+                        h[pos] = 1 + h[pos] % k
+            hyps.append({"h": h, "vis": ctx.rng.randint(1, 3), "lm": 0})
+        ctx.rng.shuffle(hyps)
+        out.append({"mode": "add", "hyps": hyps, "vw": 1, "lw": 1})
+    return out
+
+
 def _sample(ctx, cases, frac):
     if frac >= 1.0:
         return cases, True
@@ -171,6 +198,14 @@ def run(ctx):
         good = judge(ctx, consts, traces, b["name"])
         if good:
             ctx.sample({"config": b["name"], "trace": good[len(good) // 2]}, limit=5)
+    # n-best-like histories beyond the TLC bounds (property level only: conformance without a design run of that size)
+    nb = nbest_histories(ctx, 100 if ctx.tier == "quick" else 1500)
+    traces = [t for t in C.run_histories(nb) if max(len(n) for n in t["nets"]) <= 9]
+    good = judge(ctx, tla_constants({"alphabet": 3, "maxlen": 7, "adds": 5, "scores": [1, 2, 3]}, skip_empty_first=False), traces,
+                 "n-best-like histories (strings up to 7, up to 5 additions)")
+    if good:
+        ctx.sample({"config": "n-best", "trace": good[len(good) // 2]}, limit=6)
+    ctx.notes["nbest_histories"] = len(traces)
     ctx.notes["explanation"] = ("TLC exhaustive on ConfusionNet per bounds (action property GrowOnly + invariants %s), two must-violate "
                                 "self-tests (Legacy, SkipEmptyFirst=FALSE); histories replayed on pero_ocr.decoding.confusion_networks and "
                                 "validated step by step by ConfusionNet_Trace (property level = verdict, detailed level = drift)" % INVS)
